@@ -76,11 +76,10 @@ Theorem C05_blinded_submit_from_relay_given_signed_block :
 Proof. exact blinded_submit_from_relay. Qed.
 Print Assumptions C05_blinded_submit_from_relay_given_signed_block.
 
-(* 4b. Every request to a relay, answered or not, made up to the moment of the submission (or at
-   any time when nothing is submitted) carries precisely the signed blinded block of the duty's
-   slot; a relay that retries after another relay's block has been taken sends the version and no
-   block at all (unblindProposal clears the blinded container of the structure the retrying
-   goroutine reads; go-builder-client refuses such a request without contacting the relay).  Every
+(* 4b. Every request to a relay, answered or not, whenever it is made -- also a retry made after
+   another relay's block has been taken -- carries precisely the signed blinded block of the duty's
+   slot (the requests are built before the relay goroutines start; before that repair a retry made
+   after the first delivery carried the version and no block).  Every
    request goes to a relay that can unblind and that returned the winning bid (or any relay of the
    auction when configured so or when nobody won), at most three times per relay. *)
 Theorem C05_relays_sent_signed_blinded_block :
@@ -91,9 +90,7 @@ Theorem C05_relays_sent_signed_blinded_block :
       d_account d = Some acct /\ e_proposal e = POk pr /\ p_blinded pr = true
       /\ p_block pr = Some h /\ h_slot h = d_slot d /\ e_sig_block e = Some sig
       /\ signed_container (p_version pr) true = Some code
-      /\ (rq = unblind_request (signed_proposal pr h sig code)
-          \/ (rq = late_request (signed_proposal pr h sig code)
-              /\ exists t sp', o_submit (propose c e d) = Some (t, sp') /\ t < st))
+      /\ rq = unblind_request (signed_proposal pr h sig code)
       /\ In (sign_block_event c d acct h) (o_events (propose c e d))
       /\ e_auction e = AOk w a /\ In i (candidates c w a)
       /\ nth_error (e_relays e) i = Some rl /\ r_can rl = true
@@ -363,9 +360,9 @@ Proof. intros c H Hb Hs. exact (P_core_sound_no_relay_no_submit (actual c) (P_b_
 Print Assumptions C05_P_b_sound_no_relay_no_submit.
 
 (* 13c. P_b on a full block that came back: a call that was SEEN made, whose scripted answer is a full
-   block handed back before the end of the context (and at an instant at which no other relay's call
-   returned without a block -- there Go's scheduler decides), has something seen submitted no later
-   than that instant.  With [C05_P_b_sound_submit_blinded] (what was submitted had been delivered by
+   block handed back before the end of the context, has something seen submitted no later than that
+   instant -- also when another relay's call returns without a block at that very instant (a relay
+   that has a block always hands it over).  With [C05_P_b_sound_submit_blinded] (what was submitted had been delivered by
    then): the earliest full block returned is submitted the moment it is back, not when the other
    relays have answered or given up. *)
 Theorem C05_P_b_sound_first_block_submitted :
@@ -375,11 +372,10 @@ Theorem C05_P_b_sound_first_block_submitted :
     nth_error (o_unblind (c_obs c)) i = Some calls -> nth_error calls k = Some (st, rq) ->
     nth_error (e_relays (c_env c)) i = Some r -> is_ok (scripted r k) = true ->
     st + scripted_lat r k < e_deadline (c_env c) - c_t0 c ->
-    scheduler_decides (actual c) (st + scripted_lat r k) = false ->
     exists t sp, o_submit (c_obs c) = Some (t, sp) /\ t <= st + scripted_lat r k.
 Proof.
-  intros c p fc i calls k st rq r H Hp Hbl Hfc Hc Hk Hr Hok Hlt Hsd.
-  exact (P_core_sound_first_block (actual c) p fc i calls k st rq r (P_b_core c H) Hp Hbl Hfc Hc Hk Hr Hok Hlt Hsd).
+  intros c p fc i calls k st rq r H Hp Hbl Hfc Hc Hk Hr Hok Hlt.
+  exact (P_core_sound_first_block (actual c) p fc i calls k st rq r (P_b_core c H) Hp Hbl Hfc Hc Hk Hr Hok Hlt).
 Qed.
 Print Assumptions C05_P_b_sound_first_block_submitted.
 
